@@ -177,44 +177,37 @@ func metricsRandom(args []string) int {
 				d.emit(ev)
 			}
 		}
-		// concurrent burst on one identity
-		g, k := 2+r.Intn(6), 50+r.Intn(150)
-		ptrs := make([]string, g)
-		var wg sync.WaitGroup
-		for i := 0; i < g; i++ {
-			wg.Add(1)
-			go func(i int) {
-				defer wg.Done()
-				for j := 0; j < k; j++ {
-					c := d.c.Counter("burst", map[string]string{"a": "1", "b": "2"})
-					c.Inc()
-					d.c.Histogram("bursth", map[string]string{"a": "1"}).Observe(1)
-					if j == 0 {
-						ptrs[i] = fmt.Sprintf("%p", c)
+		// concurrent bursts: g goroutines released together make the very first request for a fresh identity
+		for round := 0; round < 60; round++ {
+			g, k := 2+r.Intn(7), 1+r.Intn(4)
+			name := fmt.Sprintf("burst%d", round)
+			start := make(chan struct{})
+			var wg sync.WaitGroup
+			for i := 0; i < g; i++ {
+				wg.Add(1)
+				go func() {
+					defer wg.Done()
+					<-start
+					for j := 0; j < k; j++ {
+						d.c.Counter(name, map[string]string{"a": "1", "b": "2"}).Inc()
+						d.c.Histogram(name+"h", map[string]string{"a": "1"}).Observe(1)
 					}
+				}()
+			}
+			close(start)
+			wg.Wait()
+			total, hc, nser := int64(0), int64(0), 0
+			for _, m := range d.c.GetAllMetrics() {
+				if m.Name == name {
+					total += int64(m.Value)
+					nser++
 				}
-			}(i)
-		}
-		wg.Wait()
-		total, hc := int64(0), int64(0)
-		series := map[string]bool{}
-		for _, p := range ptrs {
-			series[p] = true
-		}
-		nser := 0
-		for _, m := range d.c.GetAllMetrics() {
-			if m.Name == "burst" {
-				total += int64(m.Value)
-				nser++
+				if m.Name == name+"h_count" {
+					hc += int64(m.Value)
+				}
 			}
-			if m.Name == "bursth_count" {
-				hc += int64(m.Value)
-			}
+			d.emit(&metEv{Op: "conc", G: g, K: k, Total: total, Series: nser, HCount: hc})
 		}
-		if nser > len(series) {
-			series["more"] = true
-		}
-		d.emit(&metEv{Op: "conc", G: g, K: k, Total: total, Series: nser, HCount: hc})
 	}
 	d.w.close()
 	fmt.Printf("{\"traces\": %d, \"events\": %d}\n", *ntr, d.w.n)
